@@ -99,6 +99,47 @@ _verdict(not np.allclose(x0W, want, atol=1e-12), got=x0W.tolist(), want=want.tol
 ''' % (direction, direction)
 
 
+def _replay_general():
+    """General confirmation on the compiled build: all four branches of an Earth-Moon L1 halo, each computed twice on the same
+    object with different arguments; every seed is checked against an independently computed monodromy eigenvector."""
+    return '''
+import warnings; warnings.filterwarnings("ignore")
+from hiten.system import System
+from hiten.algorithms.dynamics.rtbp import _compute_stm
+l1 = System.from_bodies("earth", "moon").get_libration_point(1)
+o = l1.create_orbit("halo", amplitude_z=0.02, zenith="southern"); o.correct(); T = float(o.period)
+xx, tt, PhiT, PHI = _compute_stm(o.libration_point.system.var_dynsys, o.initial_state, T, steps=2000, forward=1)
+w, V = np.linalg.eig(np.asarray(PhiT, dtype=float))
+vu = np.real(V[:, int(np.argmax(np.abs(w)))]); vs = np.real(V[:, int(np.argmin(np.abs(w)))])
+bad = {}
+def phi_at(f):
+    k = int(np.argmin(np.abs(np.asarray(tt) - f * T))); return np.asarray(PHI[k, :36]).reshape(6, 6), np.asarray(xx[k], dtype=float)
+seeds = {}
+for stable in (True, False):
+    for direction in ("positive", "negative"):
+        m = o.manifold(stable=stable, direction=direction)
+        for npass, (step, disp) in enumerate(((0.25, 1e-6), (0.2, 1e-5))):
+            m.compute(step=step, integration_fraction=0.05, displacement=disp, show_progress=False)
+            trajs = m.trajectories
+            for k, tr in enumerate(trajs):
+                st, tm = np.asarray(tr.states, dtype=float), np.asarray(tr.times, dtype=float)
+                M, xk = phi_at(k * step)
+                d = st[0] - xk; v = M @ (vs if stable else vu)
+                tag = "%s_%s_pass%d_seed%d" % ("stable" if stable else "unstable", direction, npass + 1, k)
+                if abs(np.linalg.norm(d[:3]) - disp) > 0.02 * disp: bad[tag + "_distance"] = float(np.linalg.norm(d[:3]) / disp)
+                c = float(np.dot(d, v) / (np.linalg.norm(d) * np.linalg.norm(v)))
+                if abs(abs(c) - 1.0) > 1e-3: bad[tag + "_direction"] = c
+                seeds[(stable, direction, npass, k)] = np.sign(c)
+                if len(tm) > 1 and np.sign(tm[-1] - tm[0]) != (-1 if stable else 1): bad[tag + "_time_sense"] = [float(tm[0]), float(tm[-1])]
+for (stable, direction, npass, k), sg in seeds.items():
+    other = seeds.get((stable, "negative" if direction == "positive" else "positive", npass, k))
+    if other is not None and other == sg: bad["%s_pass%d_seed%d_sides" % ("stable" if stable else "unstable", npass + 1, k)] = "positive and negative branch on the same side"
+    first = seeds.get((stable, direction, 0, 0))
+    if k == 0 and first is not None and first != sg: bad["%s_%s_side_changes_between_computes" % ("stable" if stable else "unstable", direction)] = [float(first), float(sg)]
+_verdict(bool(bad), **{k: bad[k] for k in list(bad)[:8]})
+'''
+
+
 def direction_and_filters(chk, svc_mod):
     """(2) forward = -stable and the propagation receives it (all six components reversed); (4) the STM whose history and
     end value feed the seeds is the FORWARD one of the orbit; (5) retained trajectories passed the energy filter."""
@@ -287,6 +328,7 @@ def classification(chk):
 
 def main():
     chk = Check(PID)
+    chk.default_replay = _replay_general
     from hiten.algorithms.types.services import manifold as svc_mod
     chk.bound(section='symbolic 6x6 transported matrix, eigenvector, orbit point, displacement; both sides; forward and negated time stamps', classification='3x3 matrices with real symbolic spectrum',
               run_compute='2 phase fractions, trajectories of 2 samples')
